@@ -325,6 +325,25 @@ def F2b():
     r = r or []
     return (exc is None and not raised and "ResponseReceived" not in r), f"application saw {raised or 'no error'}; client saw {r}"
 
+def F11c():
+    """a plain HTTP/2 CONNECT (a tunnelling request: no :protocol pseudo-header, so not the extended
+    CONNECT of RFC 8441) that happens to carry sec-websocket-version: 13 is taken for a WebSocket
+    handshake: the application is started with a websocket scope and the request is answered 200"""
+    seen = {}
+
+    async def app(scope, receive, send):
+        seen["type"] = scope["type"]
+        await receive()
+        if scope["type"] == "websocket":
+            await send({"type": "websocket.accept"})
+
+    async def sc(h):
+        h.client.send_headers(1, [(b":method", b"CONNECT"), (b":authority", b"proxy.example:443"), (b"sec-websocket-version", b"13")])
+        await h.flush()
+        return [dict(e.headers).get(b":status") for e in h.events if isinstance(e, h2.events.ResponseReceived)]
+    h, r, exc = run_scenario(app, sc)
+    return (seen.get("type") == "websocket" and r == [b"200"]), f"plain CONNECT without :protocol: application scope type {seen.get('type')!r}, response status {r}"
+
 
 SCENARIOS = {k: v for k, v in globals().items() if k.startswith("F") and callable(v)}
 
